@@ -35,11 +35,13 @@ fn grammars() -> Vec<(&'static str, Option<&'static str>, bool)> {
         // G5 / G6 differ from each other only in whitespace, at a place where whitespace matters
         ("G5", Some("@export Root = 'a b' x:X ;\nX = 'b' | 'c' ;\n"), true),
         ("G6", Some("@export Root = 'ab' x:X ;\nX = 'b' | 'c' ;\n"), true),
+        // multi-byte characters end up in the generated code (byte length != character count)
+        ("G7", Some("@export Root = 'jó' x:X ;\nX = 'ü' | 'c' | '香' ;\n"), true),
     ]
 }
 
 fn prefixes() -> Vec<&'static str> {
-    vec!["", "use std::fmt;", "use std::fmt;\nuse std::io;", "use std::collections::BTreeMap;"]
+    vec!["", "use std::fmt;", "use std::fmt;\nuse std::io;", "use std::collections::BTreeMap;", "// előtag: 香\nuse std::cmp;"]
 }
 
 #[derive(Clone, Debug, PartialEq, Eq, PartialOrd, Ord, Hash)]
@@ -137,6 +139,12 @@ fn dest_is_compilation_of(bytes: &[u8], gtext: &str, prefix: &str) -> Result<(),
         .ok_or("grammar does not compile through the library route")?;
     if !s.starts_with(&header) {
         return Err(format!("destination does not start with the header of the current grammar; starts with {:?}", &s[..s.len().min(160)]));
+    }
+    // comments are not tokens: every line of the prefix must be there as written
+    for line in prefix.lines().map(|l| l.trim()).filter(|l| !l.is_empty()) {
+        if !s.lines().any(|l| l.trim() == line) {
+            return Err(format!("destination does not contain the prefix line {line:?}"));
+        }
     }
     let got = tokens_after_header(s).ok_or("destination does not tokenise")?;
     if got != toks {
@@ -236,15 +244,15 @@ pub fn explore(mode: Mode, tier: Tier, st: &mut Stats, replay: Option<&[Op]>) ->
     let nf = w.nfiles();
     // menus: directory mode and format mode use smaller menus in the quick tier
     let gmenu: Vec<usize> = match (mode, tier) {
-        (Mode::Directory, Tier::Quick) => vec![1, 3, 5, 6],
-        (Mode::Directory, Tier::Thorough) => vec![0, 1, 2, 3, 4, 5, 6],
-        (Mode::FileExplicitFormat, Tier::Quick) => vec![1, 3, 5, 6],
-        _ => vec![0, 1, 2, 3, 4, 5, 6],
+        (Mode::Directory, Tier::Quick) => vec![1, 3, 5, 7],
+        (Mode::Directory, Tier::Thorough) => vec![0, 1, 2, 3, 4, 5, 6, 7],
+        (Mode::FileExplicitFormat, Tier::Quick) => vec![1, 3, 5, 6, 7],
+        _ => vec![0, 1, 2, 3, 4, 5, 6, 7],
     };
     let pmenu: Vec<usize> = match (mode, tier) {
-        (Mode::Directory, Tier::Quick) => vec![0, 1, 2],
-        (Mode::FileExplicitFormat, _) => vec![0, 1, 2],
-        _ => vec![0, 1, 2, 3],
+        (Mode::Directory, Tier::Quick) => vec![0, 1, 4],
+        (Mode::FileExplicitFormat, _) => vec![0, 1, 4],
+        _ => vec![0, 1, 2, 3, 4],
     };
     let init = State { g: vec![1; nf], prefix: 0, dest: vec![None; nf] };
     let mut seen: BTreeMap<State, (Option<State>, Option<Op>)> = BTreeMap::new();
